@@ -1,5 +1,5 @@
 """C08 - after each hand the table pauses or deals on; it never wedges."""
-from .lifebase import run_life, replay_life
+from .lifebase import run_life, replay_life, NH
 
 CL = {1: "pause decision after the hand is not 'break level or fewer players with chips than the minimum'",
       2: "two seated-in players have chips but the next hand was set up for fewer than two",
@@ -7,7 +7,9 @@ CL = {1: "pause decision after the hand is not 'break level or fewer players wit
 
 
 def run(res, replay=None):
-    return run_life(res, 4, CL, replay=replay)
+    q = res.tier == "quick"
+    plans = [("gen", None, NH[res.tier], 10 if q else 100, None), ("interval", "interval", 40 if q else 800, 10 if q else 100, None)]
+    return run_life(res, 4, CL, replay=replay, plans=plans)
 
 
 def replay(res, path):
